@@ -197,7 +197,7 @@ def main(tier):
     chk = Check('C05', 'model_checking', tier)
     w2c2 = build_w2c2('plain'); build_ref()
     jobs = [('flavours', flavour_batch(), {'cflags': ('-O0', '-fsanitize=address', '-fno-omit-frame-pointer'), 'timeout': 900})]
-    depth, budget, secs = (3, 400000, 600) if tier == 'quick' else (5, 30000000, 3000)
+    depth, budget, secs = (3, 400000, 600) if tier == 'quick' else (6, 60000000, 3000)
     for mem in ((1, 3), (0, 0), (1, None), (2, 2), (0, 2), (1, 65536)):
         jobs.append(('history mem=%s' % (mem,), history_batch(mem, depth, budget), {'cc': 'gcc', 'cflags': ('-O1',), 'drv_args': (depth, secs), 'timeout': secs + 60}))
         # the same exploration at depth 2 with AddressSanitizer: a stale or freed data pointer after grow fails loudly
